@@ -167,6 +167,39 @@ async def abandoned_child_context():
 
 
 @scenario
+async def leaving_fails_then_more_contexts():
+    import anyio
+    from asphalt.core import Context, add_resource, get_resources
+
+    def failing_cleanup():
+        raise RuntimeError("cleanup failed")
+
+    async def slow_cleanup():
+        await anyio.sleep(0.05)
+
+    async with Context() as root:
+        root.add_resource(A(), "in_root")
+        try:
+            async with Context() as bad:
+                bad.add_teardown_callback(failing_cleanup)
+                bad.add_resource(B())
+        except BaseException:  # noqa: BLE001 - the teardown error group
+            pass
+        get_resources(A)                                         # the shortcuts act on root again
+        add_resource(C(), "after_failed_exit")
+        async with Context() as nxt:                             # its parent is root, not the context that failed to close cleanly
+            nxt.get_resources(C)
+        with anyio.move_on_after(0.01):
+            async with Context() as cancelled:                   # cancellation arrives while an async teardown callback awaits
+                cancelled.add_teardown_callback(slow_cleanup)
+                cancelled.add_resource(B(), "c")
+                await anyio.sleep(1)
+        get_resources(C)
+        async with Context() as last:
+            last.get_resources(A)
+
+
+@scenario
 async def lifecycle_misuse():
     from asphalt.core import Context
     root = Context()
